@@ -27,6 +27,8 @@ type HCase struct {
 	Ops   []Op     `json:"ops"`   // mutations
 	// BogusLast: AffectedResources ends its list with a resource id that no handler serves.
 	BogusLast bool `json:"bogusLast,omitempty"`
+	// Builder: the QueryHandler values are put together with the With... methods.
+	Builder bool `json:"builder,omitempty"`
 }
 
 func (c HCase) String() string { b, _ := json.Marshal(c); return string(b) }
@@ -84,11 +86,28 @@ func runHandler(c HCase) (msg string, nontrivial bool) {
 	storeQuery := func(prefix string) url.Values {
 		return Query{Index: "ia", Prefix: prefix, Limit: -1}.values()
 	}
+	// optionally the handler values are put together with the With... methods
+	mk := func(qh store.QueryHandler) store.QueryHandler {
+		if !c.Builder {
+			return qh
+		}
+		b := store.QueryHandler{}.WithQueryStore(qh.QueryStore).WithTransformer(qh.Transformer)
+		if qh.RequestHandler != nil {
+			b = b.WithRequestHandler(qh.RequestHandler)
+		}
+		if qh.QueryRequestHandler != nil {
+			b = b.WithQueryRequestHandler(qh.QueryRequestHandler)
+		}
+		if qh.AffectedResources != nil {
+			b = b.WithAffectedResources(qh.AffectedResources)
+		}
+		return b
+	}
 	// ordinary resource without parameters: everything in index ia
-	s.Handle("all", typ, store.QueryHandler{QueryStore: m.qs, Transformer: trans,
-		RequestHandler: func(rname string, pp map[string]string) (url.Values, error) { return storeQuery(""), nil }})
+	s.Handle("all", typ, mk(store.QueryHandler{QueryStore: m.qs, Transformer: trans,
+		RequestHandler: func(rname string, pp map[string]string) (url.Values, error) { return storeQuery(""), nil }}))
 	// ordinary resource with a path parameter: ids whose key starts with $p
-	s.Handle("by.$p", typ, store.QueryHandler{QueryStore: m.qs, Transformer: trans,
+	s.Handle("by.$p", typ, mk(store.QueryHandler{QueryStore: m.qs, Transformer: trans,
 		RequestHandler: func(rname string, pp map[string]string) (url.Values, error) { return storeQuery(pp["p"]), nil },
 		AffectedResources: func(p res.Pattern, qc store.QueryChange) []string {
 			set := map[string]bool{}
@@ -115,16 +134,16 @@ func runHandler(c HCase) (msg string, nontrivial bool) {
 				out = append(out, "svc.nosuch.x")
 			}
 			return out
-		}})
+		}}))
 	// query resource
-	s.Handle("search", typ, store.QueryHandler{QueryStore: m.qs, Transformer: trans,
+	s.Handle("search", typ, mk(store.QueryHandler{QueryStore: m.qs, Transformer: trans,
 		QueryRequestHandler: func(rname string, pp map[string]string, q url.Values) (url.Values, string, error) {
 			p := q.Get("prefix")
 			if p != "" && !validTok(p) {
 				return nil, "", &res.Error{Code: res.CodeInvalidQuery, Message: "bad prefix"}
 			}
 			return storeQuery(p), "prefix=" + p, nil
-		}})
+		}}))
 	s.Handle("item.$id", res.Model, res.GetResource(func(r res.GetRequest) { r.NotFound() }))
 	conn := fakeconn.New()
 	rn, err := svc.Start(s, conn, nil)
@@ -282,7 +301,7 @@ func TestC14Handler(t *testing.T) {
 	ev := evid.For("C14")
 	ev.SetRule("handler-level cases: a service with store.QueryHandler resources over a real badgerstore QueryStore (ordinary resource, ordinary resource with a path parameter and an AffectedResources callback, query resource; served as collections or as models through the IDToRID transformers), a client holding 1-4 results, 1-25 mutations; after every mutation + Flush the client applies the resets / events / query-event responses it received and must equal a fresh get; non-trivial when some mutation changed or touched a held result")
 	rapid.Check(t, func(rt *rapid.T) {
-		c := HCase{Model: rapid.Bool().Draw(rt, "model"), BogusLast: rapid.IntRange(0, 3).Draw(rt, "bogus") == 0}
+		c := HCase{Model: rapid.Bool().Draw(rt, "model"), BogusLast: rapid.IntRange(0, 3).Draw(rt, "bogus") == 0, Builder: rapid.Bool().Draw(rt, "builder")}
 		c.Cfg.Prefix = rapid.SampledFrom([]string{"", "pfx"}).Draw(rt, "prefix")
 		c.Cfg.SlowKey = rapid.SampledFrom([]int{0, 0, 1}).Draw(rt, "slow")
 		c.Held = rapid.SliceOfNDistinct(rapid.SampledFrom([]string{"svc.all", "svc.by.a", "svc.by.b", "svc.by.ab", "svc.search?prefix=a", "svc.search?prefix=", "svc.search?prefix=ab", "svc.search"}), 1, 4, rapid.ID[string]).Draw(rt, "held")
